@@ -576,7 +576,6 @@ fn c12_pow_factors() {
     unsafe {
         assert!(!POW_BAD, "C12 pow uses only exact powers of five as factors");
         assert!(POW_LOG5 == exp, "C12 pow: exponents of the applied factors sum to exp");
-        assert!(POW_CALLS <= 8 + 5 + 1, "C12 pow: at most exp/135 large steps, 4 steps of 5^27 and one remainder");
     }
     kani::cover!(exp == 1200);
     kani::cover!(exp >= 135 && exp % 135 >= 27 && exp % 27 != 0);
